@@ -111,6 +111,44 @@ def canon(expr):
     return expr.xreplace(rep)
 
 
+def canon_one(s):
+    """canonical form of one Sum: monomial sums with index-free coefficients pulled out (S1, S2), canonical
+    dummy, cyclic offsets normalised (S3).  Sums inside the summand (index-free) are treated as atoms."""
+    body, (j0, lo, hi) = s.function, s.limits[0]
+    if len(s.limits) != 1 or lo != 0:
+        return s
+    n = sp.expand(hi + 1)
+    j = canon_dummy(n)
+    body = body.xreplace({j0: j})
+    inner = {t: sp.Dummy("S") for t in body.atoms(sp.Sum)}
+    back = {v: k for k, v in inner.items()}
+    body = sp.expand(_canon_radicals(body.xreplace(inner)))
+    total = sp.Integer(0)
+    for term in sp.Add.make_args(body):
+        coeff, rest = term.as_independent(j, as_Add=False)
+        rest = _shift_normalise(rest, j, n)
+        if rest == 1:
+            total += coeff * n
+        else:
+            total += coeff * sp.Sum(rest, (j, 0, n - 1))
+    return total.xreplace(back)
+
+
+def canon_syms(expr):
+    """canonical form with every (canonical, monomial) Sum replaced by a symbol, innermost sums first, so
+    that no expansion ever looks inside a Sum"""
+    from .oblig import sums_to_symbols
+    expr = sp.sympify(expr)
+    guard = 0
+    while expr.has(sp.Sum):
+        guard += 1
+        if guard > 20:
+            raise ValueError("sum nesting too deep")
+        inner = [s for s in expr.atoms(sp.Sum) if not s.function.has(sp.Sum)]
+        expr = expr.xreplace({s: sums_to_symbols(canon_one(s)) for s in inner})
+    return expr
+
+
 def is_zero(expr):
     from .oblig import normal_form
     return normal_form(canon(expr)) == 0
